@@ -132,8 +132,11 @@ func analyse(c *props.Check, tier, repo string, overlay map[string][]byte, seed 
 	r.NotDecided = c.NotDecided
 	defer func() {
 		if x := recover(); x != nil {
-			fmt.Printf("CHECKER-FAILURE property=%s panic: %v\n%s\n", c.ID, x, debug.Stack())
-			r.Fatal("panic in engine: %v", x)
+			// a rule met a construct it was not written for (an anchor changed its
+			// signature, ...): the property is undecided on this tree, which fails the
+			// check like any other undecided construct; the stack is kept for diagnosis
+			fmt.Printf("note: rule evaluation aborted property=%s: %v\n%s\n", c.ID, x, debug.Stack())
+			r.Undecided(core.Diag{Rule: "ENGINE", Func: "-", Object: "rule evaluation", Pos: "-", Reason: fmt.Sprintf("the rules could not be evaluated on this tree (%v): an anchor function no longer has the shape they were written for", x)})
 		}
 	}()
 	// bring new unexported helpers and renamed helpers back to the confirmed
